@@ -476,6 +476,10 @@ class _Unroller:
                 _fold_getattr(new)
                 return new
 
+            def visit_GeneratorExp(self, node):
+                # consumed once by the call it is handed to: the same rows
+                return self.visit_ListComp(node)
+
             def visit_DictComp(self, node):
                 self.generic_visit(node)
                 rows = self._rows(node)
